@@ -439,5 +439,16 @@ def rule_s3(repo):
     return res
 
 
+def rule_z5(repo):
+    """Before translation z3wrapper.norm_term simplifies the goal with prover.fologic: a quantifier whose
+    variable does not occur in its body (has_bound0) is dropped.  If the occurrence test skips a position
+    (the head of an application), a quantifier over a function or predicate variable is treated as vacuous
+    and the variable becomes a free symbol: `?n. !s. s 0 <= n` turns into `?n. _u 0 <= n`, which Z3 proves."""
+    from ..traverse import traversal_rule
+    return traversal_rule(repo, 'C06.Z5', 'the bound-variable occurrence test used to drop vacuous quantifiers looks at every sub-term',
+                          [('prover/fologic.py', 'has_bound0.<locals>.rec')],
+                          'a quantifier whose variable occurs only in the skipped position is removed as vacuous before the goal reaches Z3')
+
+
 def rules(repo):
-    return [rule_z1(repo)] + rule_z2_z3(repo) + [rule_z4(repo), rule_s1(repo), rule_s2(repo), rule_s3(repo)]
+    return [rule_z1(repo)] + rule_z2_z3(repo) + [rule_z4(repo), rule_s1(repo), rule_s2(repo), rule_s3(repo), rule_z5(repo)]
